@@ -216,6 +216,16 @@ fn my_tid() -> Option<u32> {
     l.file_name()?.to_str()?.parse().ok()
 }
 
+/// ids of all OS threads of this process
+pub fn all_tids() -> Vec<u32> {
+    std::fs::read_dir("/proc/self/task")
+        .map(|d| {
+            d.filter_map(|e| e.ok()?.file_name().to_str()?.parse().ok())
+                .collect()
+        })
+        .unwrap_or_default()
+}
+
 /// OS scheduling state of a thread of this process: 'R' running/runnable, 'S' sleeping, ...
 pub fn thread_state(tid: u32) -> Option<char> {
     let s = std::fs::read_to_string(format!("/proc/self/task/{tid}/stat")).ok()?;
@@ -661,6 +671,7 @@ pub fn control_abortable(
     let end = loop {
         // 1. wait for quiescence: every live participant is parked, blocked or not started yet
         let mut idle_polls = 0u32;
+        let mut absent_polls = 0u32;
         loop {
             if done() || abort.load(Ordering::SeqCst) {
                 break;
@@ -699,11 +710,30 @@ pub fn control_abortable(
                     blocked_detections += 1;
                 }
             }
-            if unseen > 0 && idle_polls > 3000 {
-                // a participant never showed up (e.g. thread count 0): stop waiting for it
-                for q in st.parts.iter_mut() {
-                    if !q.seen {
-                        q.exited = true;
+            // Every participant announces itself at its first point (workers: before their first
+            // ticket; Buffered producer: hook H1b; consumer: its first harness point). A
+            // participant that has not been seen yet is normally a thread that has not been
+            // scheduled yet (this took > 3 s under ASan on a loaded machine), so there is no
+            // timeout here. It is only given up on when it provably does not exist: every OS
+            // thread of this process is accounted for (controller + seen participants) on 20
+            // consecutive polls, i.e. there is no thread left that could become that participant.
+            if unseen > 0 && idle_polls % 5 == 0 {
+                let mut known: Vec<u32> = st.parts.iter().filter_map(|q| q.tid).collect();
+                if let Some(me) = my_tid() {
+                    known.push(me);
+                }
+                let unknown = all_tids().iter().filter(|t| !known.contains(t)).count();
+                if unknown == 0 {
+                    absent_polls += 1;
+                } else {
+                    absent_polls = 0;
+                }
+                if absent_polls >= 20 {
+                    for q in st.parts.iter_mut() {
+                        if !q.seen {
+                            q.exited = true;
+                            q.seen = true;
+                        }
                     }
                 }
             }
